@@ -53,14 +53,16 @@ def entry_at(s, p):
 
 def holds(s, p, e):
     """Does node s store entry e at position p (in its log, or under its snapshot)?"""
-    if not s.alive:
+    if not s.alive or len(s.extra) > 1:
         dl = dict(s.extra).get('durable')
         if dl is None:
-            return False
-        first, ents = dl
-        if p < first:
-            return True
-        return tget(ents, p - first) == e
+            if not s.alive:
+                return False
+        else:
+            first, ents = dl
+            if p < first:
+                return True
+            return tget(ents, p - first) == e
     if s.first is None:
         return False
     if p < s.first:
@@ -121,7 +123,14 @@ class SafetyMonitor(Monitor):
                             sums = model.summaries(post_w)
                         mem = self.members(model, post)
                         cnt = sum(1 for s in sums if s.nid in mem and s.voter and holds(s, p, e))
-                        if cnt * 2 <= len(mem):
+                        ok = cnt * 2 > len(mem)
+                        if not ok and model.cfg.dyn and pre.alive and pre.others != post.others:
+                            # the member set changed later in the same step (a tick decides commits before
+                            # it dequeues membership requests): the decision was taken with the old set
+                            mem = self.members(model, pre)
+                            cnt = sum(1 for s in sums if s.nid in mem and s.voter and holds(s, p, e))
+                            ok = cnt * 2 > len(mem)
+                        if not ok:
                             raise core.Violation('C04 %s advanced its commit index over position %d %r at %r but only %d of %d '
                                                  'voters %r store that entry: %r' % (
                                                      nid, p, show(e), ev, cnt, len(mem), mem,
@@ -158,7 +167,10 @@ class SafetyMonitor(Monitor):
                         pos, old, nid, sid, ev), sig='different-command-same-position')
             elif o[0] == 'cb':
                 _, sid, res, err = o
-                if 'C02' in C:
+                if 'C02' in C and isinstance(sid, tuple):
+                    if any(c[0] == sid for c in cbs):
+                        raise core.Violation('C02 callback of request %r fired twice (%r)' % (sid, ev), sig='callback-twice')
+                elif 'C02' in C:
                     if any(c[0] == sid for c in cbs):
                         raise core.Violation('C02 callback of submission %r fired twice (%r then %r) at %r' % (
                             sid, [c for c in cbs if c[0] == sid], (res, err), ev), sig='callback-twice')
@@ -202,6 +214,17 @@ class SafetyMonitor(Monitor):
                     if e is not None and tget(regular, p) is not None and regular[p] < post.term and not holds(post, p, e):
                         raise core.Violation('C03 %s became leader of term %d without position %d %r committed in term %d (its entry: %r) (%r)' % (
                             nid, post.term, p, show(e), regular[p], show(entry_at(post, p)), ev), sig='leader-incomplete')
+            for o in obs:
+                if o[0] == 'state' and o[2] == 1 and o[3] is not None:
+                    # became candidate: it votes for itself in the term it starts (state changes before the
+                    # term is incremented, so the term of the self-vote is the post-state term)
+                    kk = (nid, post.term)
+                    for k2, c in votes:
+                        if k2 == kk and c != nid:
+                            raise core.Violation('C03 %s voted for %s and for itself in term %d (%r)' % (nid, c, post.term, ev),
+                                                 sig='double-vote')
+                    if (kk, nid) not in votes:
+                        votes = votes + ((kk, nid),)
             for dst, mb in out:
                 if b'response_vote' in mb:
                     m = pickle.loads(mb)
